@@ -496,18 +496,20 @@ def run_tlc_family(ctx):
         raise core.MachineryError("design-level outcome is not ok for some printed case")
     rng = random.Random(ctx.seed)
     if ctx.quick and len(cases) > QUICK_REPLAYS:
-        # keep every case with non-default names or a blamed deviation other than the mass ones, sample the rest
-        def boring(c):
-            a = {d for d, _ in c["alone"]}
-            return not c["special"] and a <= {"rename_signature", "skip_init_indent", "for_loop_no_scope"}
-
-        keep = [c for c in cases if not boring(c)]
-        rest = [c for c in cases if boring(c)]
-        rng.shuffle(rest)
-        if len(keep) > QUICK_REPLAYS:
-            rng.shuffle(keep)
-            keep = keep[:QUICK_REPLAYS]
-        cases = keep + rest[: max(0, QUICK_REPLAYS - len(keep))]
+        # stratified sample: the same share for every blamed deviation (all of its cases if there are few)
+        groups: dict = {}
+        for c in cases:
+            key = (blame(c, c["impl"]) if c["impl"] != "ok" else "ok", c["special"], c["kind"])
+            groups.setdefault(key, []).append(c)
+        for k in sorted(groups, key=str):
+            rng.shuffle(groups[k])
+        per = QUICK_REPLAYS // len(groups)
+        chosen, left = [], []
+        for k in sorted(groups, key=str):
+            chosen += groups[k][:per]
+            left += groups[k][per:]
+        rng.shuffle(left)
+        cases = chosen + left[: max(0, QUICK_REPLAYS - len(chosen))]
         ctx.set("exhaustive", False)
     else:
         ctx.set("exhaustive", True)
